@@ -177,7 +177,12 @@ def render_v3000(m: Mol, rng: random.Random, opts=None):
 
     lines = []
     if o["header"]:
-        lines += ["mol " + str(rng.randint(0, 9999)), "  VERIF   0101010101", "comment V2000 M  END -"]
+        # line 3 (comment) may not start with "M  V30 " AND end in "-" at once: that is a continuation line to the reader
+        name, comment = free_text(rng), free_text(rng)
+        if comment.startswith("M  V30") or name.startswith("M  V30"):
+            name, comment = "mol " + str(rng.randint(0, 9999)), "comment V2000 M  END -"
+        lines += [name if rng.random() < 0.6 else "mol " + str(rng.randint(0, 9999)), "  VERIF   0101010101",
+                  comment if rng.random() < 0.6 else "comment V2000 M  END -"]
     else:
         lines += ["", "", ""]
     lines.append("  0  0  0     0  0            999 V3000")
@@ -208,6 +213,16 @@ def render_v3000(m: Mol, rng: random.Random, opts=None):
     return text, {"opts": o, "file_index": file_index}
 
 
+# free text as it occurs in the three header lines and in SD data items: primes, quotes, backslashes, tabs, '#', '='
+FREE_TEXT = ["2'-deoxy-5'-O-trityl", "4,4'-bipyridine", 'the "good" drawing', '15" screen', "Bob's sample", "C:\\data\\mol\\x.mol",
+             "trailing backslash \\", "a\tb", "# not a comment", "CHG=1 MASS=13 RAD=2", "M  V30 looks like a body line", "$$$$ in text",
+             "50% (w/w) `x`", "{json: [1, 2]}", "<tag attr='v'>", "name -", ""]
+
+
+def free_text(rng):
+    return rng.choice(FREE_TEXT)
+
+
 def trailer(rng, on, n):
     """what may follow `M  END` in an SD file: data items (free text, which may even quote property lines)
     and further records; none of it belongs to the molecule"""
@@ -218,7 +233,7 @@ def trailer(rng, on, n):
     if rng.random() < 0.7:
         out += ["> <COMMENT>", f"M  ISO  1 {a:3d}  13", f"M  CHG  1 {a:3d}   1", f"M  RAD  1 {a:3d}   2", ""]
     if rng.random() < 0.5:
-        out += ["> <NAME>", "another line", ""]
+        out += ["> <NAME>", "another line", free_text(rng), ""]
     out.append("$$$$")
     if rng.random() < 0.5:
         out += ["second record", "  VERIF", "", "  1  0  0  0  0  0  0  0  0  0999 V2000",
@@ -328,7 +343,9 @@ def render_v2000(m: Mol, rng: random.Random, opts=None):
     if o["atom_lists"] and n >= 1:
         list_lines = ["  1 F    2   6   7"]
     counts = f"{n:3d}{len(bond_lines):3d}{len(list_lines):3d}  0  0  0  0  0  0  0999 V2000"
-    lines = ["name", "  VERIF   0101010101", "V3000 comment", counts] + atom_lines + bond_lines + list_lines + props + ["M  END"]
+    hdr_name = free_text(rng) if rng.random() < 0.4 else "name"
+    hdr_comment = free_text(rng) if rng.random() < 0.4 else "V3000 comment"
+    lines = [hdr_name, "  VERIF   0101010101", hdr_comment, counts] + atom_lines + bond_lines + list_lines + props + ["M  END"]
     lines += trailer(rng, o.get("trailer", rng.random() < 0.3), n)
     nl = "\r\n" if o["crlf"] else "\n"
     text = nl.join(lines) + (nl if rng.random() < 0.8 else "")
